@@ -1859,8 +1859,8 @@ fn run_seams(c: &mut Ctx) {
             pert_days.push(NaiveDate::from_yo_opt(y, 60).unwrap());
         }
     }
-    let stride = c.n(16, 1) as u64;
-    let pstride = c.n(128, 2) as u64;
+    let stride = c.n(4, 1) as u64;
+    let pstride = c.n(16, 1) as u64;
     let mut cnt: std::collections::BTreeMap<&'static str, u64> = Default::default();
     for (k, d) in days.iter().enumerate() {
         let all = fields_of(&d.and_time(NaiveTime::MIN), 0);
@@ -2044,6 +2044,38 @@ pub fn run(c: &mut Ctx) {
             Case { f, real: None, mask: m, class: if directed { "random-small" } else { "random" }, hint: None, plus_one: None }
         };
         c.count(&format!("fields:{:02}", case.f.iter().filter(|x| x.is_some()).count()));
+        // 1 in 8 derived cases: the same record through the 22 SETTERS (audit 2, LOW-6) — `set_hour12(12)` stores
+        // 0, `set_hour` stores both halves, the `i64` arguments are narrowed — must be the record built through
+        // the public fields, so everything the resolvers are shown to do for it holds for parsed input too
+        if case.real.is_some() && k % 16 == 0 {
+            let f = &case.f;
+            let mut p2 = Parsed::new();
+            let mut all_ok = true;
+            let via_hour = f[HDIV].is_some() && f[HMOD].is_some() && c.rng.chance(1, 2);
+            for i in 0..NF {
+                let Some(v) = f[i] else { continue };
+                let r = match i {
+                    HDIV | HMOD if via_hour => {
+                        if i == HDIV {
+                            p2.set_hour(f[HDIV].unwrap() * 12 + f[HMOD].unwrap())
+                        } else {
+                            Ok(())
+                        }
+                    }
+                    HMOD => p2.set_hour12(if v == 0 { 12 } else { v }),
+                    _ => setter(&mut p2, i, v),
+                };
+                all_ok &= r.is_ok();
+            }
+            c.count(if via_hour { "setters-then-resolve:via-set_hour" } else { "setters-then-resolve:via-ampm-hour12" });
+            if !all_ok || p2 != build(f) {
+                c.fail("a record filled through the setters differs from the record built through the public fields", &format!("[{}] vs [{}]", dump_parsed(&p2), dump_parsed(&build(f))));
+            }
+            let (l, off) = case.real.unwrap();
+            if p2.to_naive_date() != build(f).to_naive_date() || p2.to_naive_time() != build(f).to_naive_time() || p2.to_naive_datetime_with_offset(off) != build(f).to_naive_datetime_with_offset(off) {
+                c.fail("resolvers differ between the setter-built and the field-built record", &format!("[{}] real {}", dump_parsed(&p2), l));
+            }
+        }
         let offs = offsets_for(c, case.real.map(|r| r.1).or(case.hint));
         run_case(c, &case, &offs);
         if k < 4 {
